@@ -544,6 +544,17 @@ def run(ck):
         if art in ARTS:
             (k1, l1), (k2, l2) = list(diffs[art].items())[:2]
             c1, c2 = l1[0], l2[0]
+            # prefer an observation that a fresh process reproduces from its immediately preceding prior program alone
+            fresh = [c for c in l1 + l2 if c[0].startswith("Q")]
+            if fresh:
+                base, _ = run_script(exe, [dict(scripts[fresh[0][0]][fresh[0][1]])], 300)
+                gq = k1 if fresh[0] in l1 else k2
+                for cand in [c for c in (l2 if gq == k1 else l1) if c[1] > 0 and scripts[c[0]][c[1] - 1].get("op") == "hist"][:6]:
+                    after, _ = run_script(exe, [dict(scripts[cand[0]][cand[1] - 1]), dict(scripts[cand[0]][cand[1]])], 300)
+                    if base and len(after) == 2 and canon(art, base[0].get(art)) != canon(art, after[1].get(art)):
+                        c1, c2 = fresh[0], cand
+                        k1, k2 = gq, (k2 if gq == k1 else k1)
+                        break
             detail["observation_a"] = {"context": c1[0], "after": [r.get("tag") for r in scripts[c1[0]][:c1[1]]][-8:], "value": list(k1)[:2]}
             detail["observation_b"] = {"context": c2[0], "after": [r.get("tag") for r in scripts[c2[0]][:c2[1]]][-8:], "value": list(k2)[:2]}
             # a self-contained replay: does the prior program that immediately precedes the observation suffice?
